@@ -355,3 +355,58 @@ pub fn evidence_json<K: Check>(
         "violations": violations,
     })
 }
+
+/// Determinism self-test support: a digest of the complete per-run outcomes (fingerprint of the
+/// realised event sequence, simulated steps, counters, violation) of runs 0..runs, combined in
+/// run-index order. Must not depend on the worker count or the process.
+pub fn digest_batch<K: Check>(check: &K, seed: u64, runs: u64, jobs: usize) -> u64 {
+    let next = AtomicU64::new(0);
+    let out: Mutex<Vec<(u64, u64)>> = Mutex::new(Vec::new());
+    std::thread::scope(|s| {
+        for _ in 0..jobs.max(1) {
+            s.spawn(|| {
+                let mut local = Vec::new();
+                loop {
+                    let from = next.fetch_add(64, Ordering::Relaxed);
+                    if from >= runs {
+                        break;
+                    }
+                    for run in from..(from + 64).min(runs) {
+                        let mut rng = Rng::for_run(seed, check.domain(), run);
+                        let case = check.gen(&mut rng);
+                        let o = check.exec(&case);
+                        let mut h = crate::rng::Fingerprint::default();
+                        h.add(o.fingerprint);
+                        h.add(o.steps);
+                        h.add(o.nontrivial as u64);
+                        for (k, v) in &o.counters.0 {
+                            for b in k.bytes() {
+                                h.add(b as u64);
+                            }
+                            h.add(*v);
+                        }
+                        if let Some(v) = &o.violation {
+                            for b in v.oracle.bytes().chain(v.detail.bytes()) {
+                                h.add(b as u64);
+                            }
+                            h.add(v.step as u64);
+                        }
+                        // generation must be reproducible too
+                        for b in serde_json::to_string(&case).unwrap().bytes() {
+                            h.add(b as u64);
+                        }
+                        local.push((run, h.0));
+                    }
+                }
+                out.lock().unwrap().extend(local);
+            });
+        }
+    });
+    let mut v = out.into_inner().unwrap();
+    v.sort();
+    let mut h = crate::rng::Fingerprint::default();
+    for (_, d) in v {
+        h.add(d);
+    }
+    h.0
+}
